@@ -388,7 +388,7 @@ class Decorator:
         return "%s %s%s" % (style, tag, words), True
 
     def decorate(self, src, toks, density=0.15, only=None, styles=None, specials=True, blank_lines=0.0, max_per_slot=2,
-                 line_inline=False):
+                 line_inline=False, only_index=None):
         """src: str; toks: parse_fmtlex(..., with_pos=True) of src (comments allowed, they are skipped).
         Returns (new source, [(slot name, comment text)] in source order) or (None, reason)."""
         sig = [t for t in toks if t["k"] == "T"]
@@ -428,8 +428,10 @@ class Decorator:
         self.inline_line = 0
         placed = []
         order = 0
-        for kind, idx, name in slots:
+        for slot_no, (kind, idx, name) in enumerate(slots):
             if only is not None and name not in only:
+                continue
+            if only_index is not None and slot_no != only_index:
                 continue
             p = density
             if self.r.random() >= p:
@@ -524,3 +526,89 @@ class Decorator:
     def _line_start(src, o):
         p = src.rfind("\n", 0, o)
         return p + 1
+
+
+# a program with every statement and declaration kind: used to place ONE comment at EVERY documented
+# placeholder in turn (exhaustive over the slots of this program x comment styles)
+TEMPLATE = '''import foo;
+include "mod";
+acl a {
+  "10.0.0.0"/8;
+  !"10.1.0.0"/16;
+}
+backend b {
+  .host = "a";
+  .probe = {
+    .request = "GET";
+  }
+}
+director d random {
+  .quorum = 50%;
+  { .backend = F_a; .weight = 1; }
+}
+table t STRING {
+  "k": "v",
+  "k2": "v2",
+}
+penaltybox p {
+}
+ratecounter r {
+}
+sub vcl_recv {
+  set req.http.X = "a";
+  add req.http.Y = "b";
+  unset req.http.Z;
+  remove req.http.W;
+  call custom_a;
+  declare local var.s STRING;
+  error 404 "msg";
+  esi;
+  restart;
+  std.collect(req.http.A, "b");
+  goto lbl;
+  lbl:
+  if (req.http.A) {
+    esi;
+  }
+  else if (req.http.B) {
+    esi;
+  }
+  else {
+    esi;
+  }
+  log "x";
+  synthetic "y";
+  synthetic.base64 "eg==";
+  return (lookup);
+  return;
+  switch (req.url) {
+  case "a":
+    esi;
+    fallthrough;
+  case ~ "b":
+    break;
+  default:
+    break;
+  }
+  {
+    esi;
+  }
+  include "inner";
+}
+'''
+
+
+def one_comment_per_slot(rng, toks):
+    """-> [(slot name, kind, style, text, twin text or None)]: TEMPLATE with one comment at one slot"""
+    sig = [(t["ty"], t["lit"]) for t in toks if t["k"] == "T"]
+    slots = find_slots(sig)
+    out = []
+    for i, (kind, idx, name) in enumerate(slots):
+        for style in ("/*", "#", "//"):
+            d = Decorator(rng)
+            text, placed = d.decorate(TEMPLATE, toks, density=1.1, styles=[style], specials=False, max_per_slot=1,
+                                      only_index=i, line_inline=True)
+            if text is None or not placed:
+                continue
+            out.append((name, kind, style, text, d.twin))
+    return out
